@@ -295,10 +295,10 @@ PARSER = [
         r matches Ok(v) ==> (if old(self).cur() is Operator { final(self).d_prim(old(self), v) } else { final(self).d_atom(old(self), v) }),
     decreases old(self).m(), 3int,''',
     ops=[
-      Ins('call:Literal::Number', 'before', 'proof { reveal_with_fuel(wf, 2); let g = G::Lit(token); assert(wf(g, self.bytes(), self.cur())); }'),
-      Ins('call:Literal::Bool', 'before', 'proof { reveal_with_fuel(wf, 2); let g = G::Lit(token); assert(wf(g, self.bytes(), self.cur())); }'),
-      Ins('call:Literal::String', 'before', 'proof { reveal_with_fuel(wf, 2); let g = G::Lit(token); assert(wf(g, self.bytes(), self.cur())); }'),
-      Ins('call:ExprAST::Reference', 'before', 'proof { reveal_with_fuel(wf, 2); let g = G::Ref(token); assert(wf(g, self.bytes(), self.cur())); }'),
+      Ins('call:Literal::Number', 'before', 'proof { lemma_node_lit(token, self.bytes(), self.cur()); }'),
+      Ins('call:Literal::Bool', 'before', 'proof { lemma_node_lit(token, self.bytes(), self.cur()); }'),
+      Ins('call:Literal::String', 'before', 'proof { lemma_node_lit(token, self.bytes(), self.cur()); }'),
+      Ins('call:ExprAST::Reference', 'before', 'proof { lemma_node_ref(token, self.bytes(), self.cur()); }'),
     ],
   ),
   F('Parser::parse_stmt',
@@ -315,7 +315,7 @@ PARSER = [
             ensures self.cur() is EOF,
             decreases self.m(),"""),
       LetBind('call:parse_expression', 'e', pre="let ghost ts = self.cur();",
-              post="""let ghost ge = choose|x: G<'a>| !(x is Entry) && first(x) == ts && wf(x, self.bytes(), self.cur()) && ast_of(x) == e;
+              post="""let ghost ge = choose|x: G<'a>| !(x is Entry) && first(x) == ts && #[trigger] wf(x, self.bytes(), self.cur()) && ast_of(x) == e;
             let ghost tn = self.cur();
             let ghost semi = tn is Semicolon;"""),
       Ins('loop#0', 'body_end', """proof {
@@ -332,7 +332,7 @@ PARSER = [
         r matches Ok(v) ==> final(self).d_expr(old(self), v),
     decreases old(self).m(), 6int,''',
     ops=[
-      Ins('tail', 'before', "let ghost g0 = choose|g: G<'a>| is_prim(g) && first(g) == old(self).cur() && wf(g, self.bytes(), self.cur()) && ast_of(g) == lhs;"),
+      Ins('tail', 'before', "let ghost g0 = choose|g: G<'a>| is_prim(g) && first(g) == old(self).cur() && #[trigger] wf(g, self.bytes(), self.cur()) && ast_of(g) == lhs;"),
       GhostArg('call:parse_op', 'Ghost(g0)'),
     ],
   ),
@@ -342,13 +342,11 @@ PARSER = [
         r matches Ok(v) ==> final(self).d_prim(old(self), v),
     decreases old(self).m(), 4int,''',
     ops=[
-      Ins('if#0', 'before', "let ghost gl = choose|x: G<'a>| is_prim(x) && (is_prefix_expr || is_atom(x)) && first(x) == old(self).cur() && wf(x, self.bytes(), self.cur()) && ast_of(x) == lhs;"),
+      Ins('if#0', 'before', "let ghost gl = choose|x: G<'a>| is_prim(x) && (is_prefix_expr || is_atom(x)) && first(x) == old(self).cur() && #[trigger] wf(x, self.bytes(), self.cur()) && ast_of(x) == lhs;"),
       Ins('let:op', 'before', "let ghost t_op = self.cur();"),
       LetBind('call:to_string', 's2', post="""proof {
                 broadcast use axiom_string_to_string;
-                reveal_with_fuel(wf, 2);
-                let g = G::Post(Box::new(gl), t_op, s2);
-                assert(wf(g, self.bytes(), self.cur()));
+                lemma_node_post(gl, t_op, s2, self.bytes(), self.cur());
             }"""),
     ],
   ),
@@ -373,10 +371,10 @@ PARSER = [
       # conditional
       Ins('call:is_question_mark', 'body_start', "                let ghost tq = self.cur();"),
       Ins('let:a', 'before', "let ghost tq1 = self.cur();"),
-      Ins('let:a', 'after', """                let ghost ga = choose|x: G<'a>| first(x) == tq1 && wf(x, self.bytes(), self.cur()) && ast_of(x) == a;
+      Ins('let:a', 'after', """                let ghost ga = choose|x: G<'a>| first(x) == tq1 && #[trigger] wf(x, self.bytes(), self.cur()) && ast_of(x) == a;
                 let ghost tc = self.cur();"""),
       Ins('let:b', 'before', "let ghost tc1 = self.cur();"),
-      Ins('let:b', 'after', """                let ghost gb = choose|x: G<'a>| first(x) == tc1 && wf(x, self.bytes(), self.cur()) && ast_of(x) == b;
+      Ins('let:b', 'after', """                let ghost gb = choose|x: G<'a>| first(x) == tc1 && #[trigger] wf(x, self.bytes(), self.cur()) && ast_of(x) == b;
                 proof {
                     lemma_cond_step(g, tq, ga, tc, gb, self.bytes(), self.cur(), exec_prec as int);
                 }"""),
@@ -385,10 +383,12 @@ PARSER = [
       Ins('let:op', 'before', """let ghost t_op = self.cur();
             let ghost nt = if is_not { Some(t_head) } else { None::<Token<'a>> };"""),
       Ins('let:rhs', 'before', "let ghost t1 = self.cur();"),
-      Ins('let:rhs', 'after', "            let ghost mut gr = choose|x: G<'a>| is_prim(x) && first(x) == t1 && wf(x, self.bytes(), self.cur()) && ast_of(x) == rhs;\n            proof { lemma_prim_spines(gr); }"),
+      Ins('let:rhs', 'after', "            let ghost mut gr = choose|x: G<'a>| is_prim(x) && first(x) == t1 && #[trigger] wf(x, self.bytes(), self.cur()) && ast_of(x) == rhs;\n            proof { lemma_prim_spines(gr); }"),
       GhostArg('call:parse_op', 'Ghost(gr)'),
       Ins('assign:rhs', 'after', """                proof {
-                    gr = choose|x: G<'a>| first(x) == first(gr) && wf(x, self.bytes(), self.cur()) && ast_of(x) == rhs
+                    assert(exists|x: G<'a>| first(x) == first(gr) && #[trigger] wf(x, self.bytes(), self.cur()) && ast_of(x) == rhs
+                        && lspine(x, r_bp as int) && (tok_is(self.cur(), "?"@) || (la(self.bytes(), self.cur()) < r_bp && rspine(x, la(self.bytes(), self.cur())))));   // @C02 recursion.uses_right_power
+                    gr = choose|x: G<'a>| first(x) == first(gr) && #[trigger] wf(x, self.bytes(), self.cur()) && ast_of(x) == rhs
                         && lspine(x, r_bp as int) && (tok_is(self.cur(), "?"@) || (la(self.bytes(), self.cur()) < r_bp && rspine(x, la(self.bytes(), self.cur()))));
                 }"""),
       Ins('loop#0', 'body_end', """proof {
@@ -413,8 +413,8 @@ PARSER = [
     ops=[
       Ins('call:next', 'after', "        let ghost t1 = self.cur();"),
       Ins('let:expr', 'after', """        let ghost tc = self.cur();
-        let ghost ge = choose|g: G<'a>| first(g) == t1 && wf(g, self.bytes(), self.cur()) && ast_of(g) == expr;"""),
-      Ins('tail', 'before', "proof { reveal_with_fuel(wf, 2); let g = G::Paren(old(self).cur(), Box::new(ge), tc); assert(wf(g, self.bytes(), self.cur())); }"),
+        let ghost ge = choose|g: G<'a>| first(g) == t1 && #[trigger] wf(g, self.bytes(), self.cur()) && ast_of(g) == expr;"""),
+      Ins('tail', 'before', "proof { lemma_node_paren(old(self).cur(), ge, tc, self.bytes(), self.cur()); }"),
     ],
   ),
   F('Parser::parse_open_bracket',
@@ -433,7 +433,7 @@ PARSER = [
                 forall|i: int| 0 <= i < items.len() ==> exprs@[i] == ast_of(#[trigger] items[i].0),
             decreases self.m(),"""),
       LetBind('call:parse_expression', 'e', pre="let ghost ts = self.cur();",
-              post="""let ghost ge = choose|x: G<'a>| first(x) == ts && wf(x, self.bytes(), self.cur()) && ast_of(x) == e;
+              post="""let ghost ge = choose|x: G<'a>| first(x) == ts && #[trigger] wf(x, self.bytes(), self.cur()) && ast_of(x) == e;
             let ghost tn = self.cur();
             let ghost closes = tok_is(tn, "]"@);"""),
       Ins('loop#0', 'body_end', """proof {
@@ -443,10 +443,7 @@ PARSER = [
             }"""),
       Ins('loop#0', 'after', "        let ghost tc = self.cur();"),
       Ins('tail', 'before', """proof {
-            reveal_with_fuel(wf, 2);
-            if items.len() > 0 { lemma_items_first(items, self.bytes(), t1, tc); }
-            let g = G::List(t_open, items, tc, exprs);
-            assert(wf(g, self.bytes(), self.cur()));
+            lemma_node_list(t_open, items, tc, exprs, self.bytes(), t1, self.cur());
         }"""),
     ],
   ),
@@ -459,7 +456,7 @@ PARSER = [
       Ins('call:next', 'before', "let ghost t_open = self.cur();"),
       Ins('call:next', 'after', "        let ghost t1 = self.cur();"),
       Ins('loop#0', 'before', """let ghost mut items: Seq<(G<'a>, Option<Token<'a>>)> = Seq::empty();
-        proof { reveal_with_fuel(wf, 2); reveal_with_fuel(wf_items, 2); }"""),
+        proof { reveal_with_fuel(wf_items, 2); }"""),
       Inv('loop#0', """            invariant self.wf(), self.bytes() == old(self).bytes(), self.m() < old(self).m(),
                 wf_items(items, self.bytes(), t1, self.cur()),
                 items.len() > 0 && items.last().1 is None ==> tok_is(self.cur(), "}"@),
@@ -467,14 +464,14 @@ PARSER = [
                 forall|i: int| 0 <= i < items.len() ==> entry_ok(#[trigger] items[i].0, m@[i]),
             decreases self.m(),"""),
       Ins('let:k', 'before', "let ghost ts = self.cur();"),
-      Ins('let:k', 'after', """            let ghost gk = choose|x: G<'a>| !(x is Entry) && first(x) == ts && wf(x, self.bytes(), self.cur()) && ast_of(x) == k;
+      Ins('let:k', 'after', """            let ghost gk = choose|x: G<'a>| !(x is Entry) && first(x) == ts && #[trigger] wf(x, self.bytes(), self.cur()) && ast_of(x) == k;
             let ghost tcol = self.cur();"""),
       Ins('let:v', 'before', "let ghost tv = self.cur();"),
-      Ins('let:v', 'after', """            let ghost gv = choose|x: G<'a>| !(x is Entry) && first(x) == tv && wf(x, self.bytes(), self.cur()) && ast_of(x) == v;
+      Ins('let:v', 'after', """            let ghost gv = choose|x: G<'a>| !(x is Entry) && first(x) == tv && #[trigger] wf(x, self.bytes(), self.cur()) && ast_of(x) == v;
             let ghost tn = self.cur();
             let ghost closes = tok_is(tn, "}"@);
             let ghost ge = G::Entry(Box::new(gk), tcol, Box::new(gv));
-            proof { reveal_with_fuel(wf, 2); assert(wf(ge, self.bytes(), tn)); }"""),
+            proof { lemma_node_entry(gk, tcol, gv, self.bytes(), tn); }"""),
       Ins('loop#0', 'body_end', """proof {
                 let c = if closes { None::<Token<'a>> } else { Some(tn) };
                 lemma_items_push(items, self.bytes(), t1, ge, c, self.cur());
@@ -482,11 +479,7 @@ PARSER = [
             }"""),
       Ins('loop#0', 'after', "        let ghost tc = self.cur();"),
       Ins('tail', 'before', """proof {
-            reveal_with_fuel(wf, 2);
-            reveal_with_fuel(wf_items, 2);
-            if items.len() > 0 { lemma_items_first(items, self.bytes(), t1, tc); }
-            let g = G::Map(t_open, items, tc, m);
-            assert(wf(g, self.bytes(), self.cur()));
+            lemma_node_map(t_open, items, tc, m, self.bytes(), t1, self.cur());
         }"""),
     ],
   ),
@@ -497,10 +490,8 @@ PARSER = [
     decreases old(self).m(), 1int,''',
     ops=[
       LetBind('call:parse_primary', 'inner', pre="let ghost t1 = self.cur();", post="""proof {
-            let gi = choose|g: G<'a>| is_prim(g) && first(g) == t1 && wf(g, self.bytes(), self.cur()) && ast_of(g) == inner;
-            reveal_with_fuel(wf, 2);
-            let g = G::Pre(old(self).cur(), Box::new(gi));
-            assert(wf(g, self.bytes(), self.cur()));
+            let gi = choose|g: G<'a>| is_prim(g) && first(g) == t1 && #[trigger] wf(g, self.bytes(), self.cur()) && ast_of(g) == inner;
+            lemma_node_pre(old(self).cur(), gi, self.bytes(), self.cur());
         }"""),
     ],
   ),
@@ -515,12 +506,11 @@ PARSER = [
       Ins('call:expect', 'after', "        let ghost t1 = self.cur();"),
       Ins('let:ans', 'after', "        let ghost mut items: Seq<(G<'a>, Option<Token<'a>>)> = Seq::empty();"),
       Ins('return#0', 'before', """proof {
-                reveal_with_fuel(wf, 2); reveal_with_fuel(wf_items, 2);
-                let g = G::Call(t_name, t_open, items, t1, ans);
-                assert(wf(g, self.bytes(), self.cur()));
+                reveal_with_fuel(wf_items, 2);
+                lemma_node_call(t_name, t_open, items, t1, ans, self.bytes(), t1, self.cur());
             }"""),
       Ins('loop#0', 'before', """let ghost mut t_close = t1;
-        proof { reveal_with_fuel(wf, 2); reveal_with_fuel(wf_items, 2); }"""),
+        proof { reveal_with_fuel(wf_items, 2); }"""),
       Inv('loop#0', """            invariant_except_break
                 wf_items(items, self.bytes(), t1, self.cur()),
                 items.len() > 0 ==> items.last().1 is Some,
@@ -531,15 +521,12 @@ PARSER = [
                 wf_items(items, self.bytes(), t1, t_close), tok_is(t_close, ")"@), nxt(self.bytes(), t_close, self.cur()),
             decreases self.m(),"""),
       LetBind('call:parse_expression', 'e', pre="let ghost ts = self.cur();",
-              post="""let ghost ge = choose|x: G<'a>| !(x is Entry) && first(x) == ts && wf(x, self.bytes(), self.cur()) && ast_of(x) == e;
+              post="""let ghost ge = choose|x: G<'a>| !(x is Entry) && first(x) == ts && #[trigger] wf(x, self.bytes(), self.cur()) && ast_of(x) == e;
             let ghost tn = self.cur();"""),
       Ins('break#0', 'before', "proof { lemma_items_push(items, self.bytes(), t1, ge, None, tn); items = items.push((ge, None)); t_close = tn; }"),
       Ins('loop#0', 'body_end', "proof { lemma_items_push(items, self.bytes(), t1, ge, Some(tn), self.cur()); items = items.push((ge, Some(tn))); }"),
       Ins('tail', 'before', """proof {
-            reveal_with_fuel(wf, 2);
-            lemma_items_first(items, self.bytes(), t1, t_close);
-            let g = G::Call(t_name, t_open, items, t_close, ans);
-            assert(wf(g, self.bytes(), self.cur()));
+            lemma_node_call(t_name, t_open, items, t_close, ans, self.bytes(), t1, self.cur());
         }"""),
     ],
   ),
